@@ -26,8 +26,8 @@ octets consumed must agree. Non-trivial = past the 2-octet flags guard and (acce
 
 fn parts(t: Tier) -> Vec<Part> {
     let (a, b, c) = match t {
-        Tier::Quick => (400_000, 150_000, 300_000),
-        Tier::Thorough => (6_000_000, 2_000_000, 4_000_000),
+        Tier::Quick => (1_200_000, 450_000, 900_000),
+        Tier::Thorough => (12_000_000, 4_000_000, 8_000_000),
     };
     vec![tape("wire", a, 900), tape("noncanon", b, 900), tape("records", c, 700), enumerate("grid", GRID_SIZE), enumerate("flagwords", 65536)]
 }
